@@ -297,26 +297,6 @@ pub fn gen_issuer_history(r: &mut Rng, tier: Tier) -> IssuerHistory {
     IssuerHistory { key, alg, calls }
 }
 
-/// the same selection with the members of every object in another order (reversed, or shuffled)
-fn reorder_members(r: &mut Rng, v: &Value, reverse: bool) -> Value {
-    match v {
-        Value::Object(m) => {
-            let mut items: Vec<(String, Value)> = m.iter().map(|(k, x)| (k.clone(), reorder_members(r, x, reverse))).collect();
-            if reverse {
-                items.reverse();
-            } else {
-                for i in (1..items.len()).rev() {
-                    let j = r.below(i + 1);
-                    items.swap(i, j);
-                }
-            }
-            Value::Object(items.into_iter().collect())
-        }
-        Value::Array(a) => Value::Array(a.iter().map(|x| reorder_members(r, x, reverse)).collect()),
-        _ => v.clone(),
-    }
-}
-
 fn insert_at(m: &Map<String, Value>, at: usize, k: &str, v: Value) -> Map<String, Value> {
     let mut items: Vec<(String, Value)> = m.iter().filter(|(x, _)| x.as_str() != k).map(|(a, b)| (a.clone(), b.clone())).collect();
     let at = at.min(items.len());
